@@ -142,6 +142,9 @@ def run_cbmc(argv, cwd, out_path, timeout, mem_gb):
     if results is None:
         raise Undecided("cbmc produced no result list (rc=%d)" % rc)
     msgs = [("WARNING", l) for l in txt.splitlines() if "ignoring" in l]
+    for m in _re.finditer(r'no body for (?:function|callee) (\S+)', txt):
+        if not m.group(1).startswith("nondet_"):
+            msgs.append(("NOBODY", m.group(1)))
     return results, dt, msgs
 
 
